@@ -45,7 +45,10 @@ type DLCase struct {
 	BadWebSeed int               `json:"bad_web_seed"` // 0 none, 1 corrupting, 2 truncating, 3 404
 	Enc        int               `json:"enc"`          // client policy: 0 default, 1 disable outgoing, 2 force outgoing, 3 force incoming, 4 force both
 	ReqOut     int               `json:"max_requests_out"`
-	EndgameMax int               `json:"endgame_max"`
+	// Liar: before the client learns the honest seeder's address, a peer without any piece tells it in its extension
+	// handshake that this very address is the client's own ("yourip")
+	Liar       bool `json:"yourip_liar"`
+	EndgameMax int  `json:"endgame_max"`
 }
 
 func genDL(t *rapid.T) DLCase {
@@ -114,6 +117,7 @@ func genDL(t *rapid.T) DLCase {
 	}
 	c.ReqOut = rapid.SampledFrom([]int{1, 2, 8, 250}).Draw(t, "reqout")
 	c.EndgameMax = rapid.SampledFrom([]int{1, 2, 20}).Draw(t, "endgame")
+	c.Liar = c.SeedPeer && !c.SeedDials && rapid.IntRange(0, 3).Draw(t, "liar") == 0
 	return c
 }
 
@@ -293,6 +297,26 @@ func runDL(c DLCase) core.Result {
 	if err := tor.Start(); err != nil {
 		return core.Failf("start: %v", err)
 	}
+	if c.Liar {
+		// a peer with no pieces claims that the honest seeder's address is the client's own
+		var id [20]byte
+		copy(id[:], "-LI0001-yourip-liar0")
+		lo := speer.Opts{InfoHash: ih, PeerID: id, Fast: true, Ext: true, MetadataSize: int64(len(infoBytes)), Reqq: 250, YourIP: net.ParseIP(sess.IP(1)).To4()}
+		var lp *speer.Peer
+		for try := 0; try < 40; try++ {
+			lp, err = speer.Dial(sess.IP(30), fmt.Sprintf("%s:%d", sess.IP(0), tor.Port()), lo, 2*time.Second)
+			if err == nil || !strings.Contains(err.Error(), "refused") {
+				break
+			}
+			time.Sleep(25 * time.Millisecond)
+		}
+		if err == nil {
+			defer lp.Close()
+			speer.Serve(lp, speer.Behaviour{Have: make([]bool, l.NumPieces())}, F, int(l.PieceLength), infoBytes)
+			lp.Barrier(2 * time.Second)
+			res.Labels = append(res.Labels, "yourip-liar")
+		}
+	}
 	for _, a := range peerAddrs {
 		if err := tor.AddPeer(a); err != nil {
 			return core.Failf("AddPeer(%s): %v", a, err)
@@ -393,6 +417,10 @@ func runDL(c DLCase) core.Result {
 			if !progress && honest.P.Closed() && good == nil {
 				return core.Failf("STUCK: the client disconnected the honest seeder (its only full source) and did not reconnect; %d/%d pieces, status %v, error %v", st1.Pieces.Have, st1.Pieces.Total, st1.Status, st1.Error)
 			}
+		}
+		if c.Liar && honest == nil && (good == nil || c.Magnet) && !progress {
+			return core.Failf("STUCK: after 29 s the download is incomplete (%d/%d pieces) and the client has never connected to the honest seeder whose address it was given with AddPeer: a peer without any piece had told it in its extension handshake that this address is the client's own (yourip), and the address was discarded",
+				st1.Pieces.Have, st1.Pieces.Total)
 		}
 		if good != nil && !progress && len(good.Log()) == ws0 && honest == nil {
 			return core.Failf("STUCK: after 25 s the download is incomplete (%d/%d pieces, status %v) and for a further 4 s nothing moved although an honest web seed is configured and idle (%d requests so far)",
